@@ -388,15 +388,33 @@ def main(tier):
             cases.append(("n=%d pattern=%s" % (n, sorted(pat)), n, pat))
     for name, (n, pat) in NAMED.items():
         cases.append((name, n, pat))
+    # matrices that admit LU without pivoting although a diagonal entry of A is zero (stored) or absent from the pattern: the
+    # pivot is created by fill-in (saddle-point systems [D B^T; B 0]).  "Every pivot non-zero" is a statement about U, not A.
+    full = lambda n_: {(i, j) for i in range(n_) for j in range(n_) if i != j}
+    ZERO_DIAG = [("zero diagonal n=2 [a b; c 0]", 2, full(2), {1}), ("zero diagonal n=3, entry (1,1)", 3, full(3), {1}),
+                 ("zero diagonal n=3, entry (2,2)", 3, full(3), {2}), ("zero diagonal n=3, entries (1,1),(2,2)", 3, full(3), {1, 2}),
+                 ("saddle point n=4 [D B^T; B 0]", 4, {(0, 2), (0, 3), (1, 2), (1, 3), (2, 0), (2, 1), (3, 0), (3, 1)}, {2, 3})]
+    zero_diag_of = {}
+    for name, n, pat, zd in ZERO_DIAG:
+        for how in ("stored", "absent"):
+            nm = "%s (%s)" % (name, how)
+            cases.append((nm, n, pat))
+            zero_diag_of[nm] = (zd, how)
     n_runs = 0
     pivots = 0
     n_forced = [0]
     for name, n, pat in cases:
-        entries = {(i, i): dag.atom("a_%d_%d" % (i, i)) for i in range(n)}
+        zd, zd_how = zero_diag_of.get(name, (set(), None))
+        entries = {(i, i): dag.atom("a_%d_%d" % (i, i)) for i in range(n) if i not in zd}
         for (i, j) in pat:
             entries[(i, j)] = dag.atom("a_%d_%d" % (i, j))
+        if zd_how == "stored":
+            for i in zd:
+                entries[(i, i)] = dag.ZERO
         orders = ["sorted", "reversed", "rotated"] if n > 1 else ["sorted"]
         zero_variants = [False, True] if (n <= 3 or name in NAMED) else [False]
+        if zd:
+            orders, zero_variants = ["sorted", "reversed"], [False]
         for order, with_zeros, rev_iter in itertools.product(orders, zero_variants, (False, True)):
             if tier == "quick" and n >= 3 and name not in NAMED and (order == "rotated" and rev_iter):
                 continue
